@@ -343,13 +343,26 @@ Record built := mkBuilt {
   b_inputs : list outpoint; b_collateral : list outpoint; b_policies : list bytes; b_certs : list cert;
   b_withdrawals : list racct; b_voters : list voter; b_proposals : list proposal; b_redeemers : list redeemer }.
 
-(* build_tx: "Plutus inputs are present, but no collateral inputs are added" is an error (the script data
-   hash is always set by the harness through calc_script_data_hash; fee and balance are arranged by it) *)
+(* build_tx, when has_plutus_inputs(): "script data hash is not specified" and "no collateral inputs are added" are
+   errors.  The harness always calls calc_script_data_hash (complete cost models, no datums), which sets the hash
+   exactly when it finds a redeemer or a used language, i.e. when some builder emits a Plutus witness; a Plutus
+   witness that is registered but not emitted (an input re-added as a key input keeps its old witness) therefore makes
+   build_tx fail.  Fee and balance are arranged by the harness (add_change_if_needed). *)
 Definition tx_build (st : txb) : result built :=
-  if tx_has_plutus st && match ib_inputs (t_collateral st) with [] => true | _ => false end then Err
+  if tx_has_plutus st
+     && (match all_witness_redeemers st with [] => true | _ => false end
+         || match ib_inputs (t_collateral st) with [] => true | _ => false end)
+  then Err
   else Ok (mkBuilt (ib_body (t_inputs st)) (ib_body (t_collateral st)) (mint_body (t_mint st)) (cert_body (t_certs st))
                    (wd_body (t_wdrl st)) (vote_body (t_votes st)) (prop_body (t_props st)) (tx_redeemers st)).
 
 (* the observation of a case: per-call success flags and the build result *)
 Definition model_obs (ops : list op) : list bool * result built :=
   let (st, flags) := run ops in (flags, tx_build st).
+
+(* ---------------------------------------------------------------------------------------- *)
+(* the behaviour BEFORE the repairs 2fef2d7 / c263357 (only used by the refutation theorems):
+   withdrawals emitted and indexed in insertion order, votes indexed by position in Rust order *)
+Definition wd_body_legacy (st : wbuilder) : list racct := map fst st.
+Definition wd_plutus_legacy (st : wbuilder) : list redeemer := flat_map (wentry_redeemer TReward) (enum_from 0 st).
+Definition vote_plutus_legacy (st : vbuilder) : list redeemer := flat_map (wentry_redeemer TVote) (enum_from 0 st).
